@@ -73,98 +73,153 @@ _byte = gen_prog.byte
 _small = st.integers(1, 6)
 _count = st.one_of(st.integers(1, 12), st.integers(1, 255))
 
-FIXED_PIECES = [
+SAFE_PIECES = [
+    # port reads
     [0xDB, 0xFE], [0xDB, 0x1F], [0xDB, 0xFF], [0xED, 0x78], [0xED, 0x40], [0xED, 0x50], [0xED, 0x70], [0xED, 0x68],
     [0xED, 0xA2], [0xED, 0xAA], [0x3E, 0xFE, 0xDB, 0xFE], [0x01, 0xFE, 0x7F, 0xED, 0x78], [0x01, 0xFE, 0xFE, 0xED, 0x48],
+    # HALT / EI / DI / IM
     [0x76], [0xFB], [0xF3], [0xFB, 0x76], [0xFB, 0x76], [0xFB, 0x76], [0xFB, 0x00, 0x76], [0xDD, 0x76], [0xFD, 0xFB],
-    [0xFB, 0xFB], [0xFB, 0xF3], [0xED, 0x46], [0xED, 0x56], [0xED, 0x56, 0xFB], [0xED, 0x4E], [0xED, 0x76],
-    [0xED, 0x57], [0xED, 0x5F], [0xED, 0x57, 0xF5], [0xED, 0x5F, 0xF5], [0xED, 0x57, 0xF5, 0xC1], [0xED, 0x4F], [0xED, 0x47],
+    [0xFB, 0xFB], [0xFB, 0xF3], [0xED, 0x46], [0xED, 0x56], [0xED, 0x56, 0xFB], [0xED, 0x4E], [0xED, 0x76], [0xED, 0x66],
+    # LD A,I / LD A,R / LD R,A
+    [0xED, 0x57], [0xED, 0x5F], [0xED, 0x57, 0xF5, 0xF1], [0xED, 0x5F, 0xF5, 0xC1], [0xED, 0x57, 0xE2, 0x00, 0x00], [0xED, 0x4F],
+    # prefixes
     [0xDD], [0xFD], [0xDD, 0xFD], [0xDD, 0xDD, 0xFD, 0x23], [0xFD, 0xDD, 0xCB, 0x01, 0x06], [0xDD, 0xED, 0x4F], [0xFD, 0xED, 0x57],
-    [0xDD, 0xCB, 0x00, 0x46], [0xFD, 0xCB, 0xFF, 0xC6], [0xCB, 0x46], [0xCB, 0x7E], [0xCB, 0x47],
-    [0xD3, 0xFE], [0x3C, 0xD3, 0xFE], [0xED, 0x79], [0xED, 0x41],
-    [0x01, 0xFD, 0x7F, 0xED, 0x79], [0x01, 0xFD, 0x7F, 0x3E, 0x10, 0xED, 0x79], [0x01, 0xFD, 0x7F, 0x3E, 0x07, 0xED, 0x79],
-    [0x01, 0xFD, 0x7F, 0x3E, 0x13, 0xED, 0x79], [0x01, 0xFD, 0x7F, 0x3E, 0x21, 0xED, 0x79],
+    [0xDD, 0xCB, 0x00, 0x46], [0xFD, 0xCB, 0xFF, 0xC6], [0xCB, 0x46], [0xCB, 0x7E], [0xCB, 0x47], [0xDD, 0x00], [0xFD, 0x3C],
+    [0xDD, 0x7E, 0x00], [0xFD, 0x34, 0x02], [0xDD, 0x24], [0xDD, 0xFB], [0xFD, 0xF3],
+    # port writes
+    [0xD3, 0xFE], [0x3C, 0xD3, 0xFE], [0x3E, 0x02, 0xD3, 0xFE],
+    [0x01, 0xFD, 0x7F, 0x3E, 0x10, 0xED, 0x79], [0x01, 0xFD, 0x7F, 0x3E, 0x17, 0xED, 0x79],
+    [0x01, 0xFD, 0x7F, 0x3E, 0x13, 0xED, 0x79], [0x01, 0xFD, 0x7F, 0x3E, 0x31, 0xED, 0x79], [0x3E, 0x11, 0xD3, 0xFD],
     [0x01, 0xFD, 0xFF, 0x3E, 0x07, 0xED, 0x79, 0x01, 0xFD, 0xBF, 0x3E, 0x38, 0xED, 0x79],
-    [0x01, 0xFD, 0xFF, 0xED, 0x79, 0x06, 0xBF, 0xED, 0x51],
-    [0xF5], [0xF1], [0xC5], [0xE5], [0x34], [0x35], [0x77], [0x23], [0x3C], [0x04], [0x0C], [0x08], [0xD9],
-    [0xED, 0xA0], [0xED, 0xB0], [0xED, 0xB8], [0xED, 0xB1], [0xED, 0xB3], [0xED, 0xB2], [0xED, 0xBA],
-    [0xCD, 0x38, 0x00], [0xFF], [0xC9], [0xED, 0x4D], [0xED, 0x45],
+    [0x01, 0xFD, 0xFF, 0x3E, 0x0E, 0xED, 0x79, 0x06, 0xBF, 0xED, 0x51],
+    # register / memory effects
+    [0xF5, 0xF1], [0xC5, 0xC1], [0xE5, 0xD1], [0x34], [0x35], [0x77], [0x23], [0x3C], [0x04], [0x0C], [0x08], [0xD9], [0x87], [0x2F],
+    [0xED, 0xA0], [0xED, 0xA1], [0xED, 0x44], [0xED, 0x6F], [0xCB, 0x06], [0x06, 0x03, 0xED, 0xB3],
+    [0xCD, 0x38, 0x00],
 ]
+
+WILD_FIXED = [[0xED, 0x47], [0xED, 0x5E], [0xC9], [0xED, 0x4D], [0xED, 0x45], [0xFF], [0xC7], [0xF5], [0xF1], [0xE1], [0xED, 0xB0], [0xED, 0xB8],
+              [0xED, 0xB1], [0xED, 0xB2], [0xED, 0x79], [0xED, 0x41], [0x01, 0xFD, 0x7F, 0x3E, 0x07, 0xED, 0x79],
+              [0x01, 0xFD, 0x7F, 0x3E, 0x00, 0xED, 0x79], [0x01, 0xFD, 0x7F, 0x3E, 0x21, 0xED, 0x79], [0x3E, 0x3B, 0xED, 0x47],
+              [0x18, 0xF8], [0x20, 0xF4], [0x10, 0xFC], [0xF3, 0x76], [0x31, 0x00, 0x00], [0x31, 0x02, 0x40], [0xE9], [0xDD, 0xE9]]
+
+LOOP_BODIES = [
+    [0xED, 0x57, 0xED, 0x5F], [0xED, 0x57, 0xF5, 0xF1], [0xED, 0x57], [0xED, 0x5F, 0xFB], [0xFB, 0x00, 0xFB], [0xFB], [0xFB, 0xFB, 0x3C],
+    [0xFB, 0x76], [0xFB, 0x76, 0xF3], [0xDD, 0xFD, 0xDD, 0x23], [0xDD, 0xFD], [0xDD, 0xCB, 0x00, 0x06], [0xFD, 0xCB, 0x01, 0x4E, 0xDD],
+    [0xDB, 0xFE, 0xED, 0x78], [0xDB, 0xFE], [0xED, 0x78, 0xFB], [0xED, 0xA2, 0x04], [0xCB, 0x46, 0xF5, 0xF1], [0xED, 0x4F, 0xDD, 0x23],
+    [0x3C, 0xD3, 0xFE], [0xED, 0x5F, 0x77, 0x23], [0xED, 0x44, 0xFB, 0xED, 0x57], [0xFD], [0x00], [0xFB, 0xED, 0x57], [0xFB, 0xDD],
+    [0xDD, 0xFB], [0xF3, 0xED, 0x57, 0xFB],
+]
+
+DENSE_PIECES = [[0xFB], [0xFB], [0xFB], [0xED, 0x57], [0xED, 0x57], [0xED, 0x5F], [0xDD], [0xFD], [0x76], [0x76], [0xDB, 0xFE], [0x00], [0xF3],
+                [0x3C], [0xDD, 0x23], [0xCB, 0x46], [0xED, 0x78], [0xF5, 0xF1], [0xED, 0x4F], [0xDD, 0xCB, 0x00, 0x06], [0xD3, 0xFE],
+                [0xED, 0x57, 0xF5, 0xF1], [0xFB, 0x76], [0xDD, 0xFB], [0xFD, 0x76], [0xED, 0xA2], [0x06, 0x05, 0x10, 0xFE]]
+
+LDIR_SHAPES = [(0x4000, 0x4001, 4000), (0x5800, 0x5801, 700), (0x9000, 0xA000, 4000), (0xC000, 0xE000, 3000), (0x0000, 0xA000, 4000),
+               (0xAFFF, 0xAFFE, 3000)]
 
 
 @st.composite
-def _piece(draw, base, vpage):
-    kind = draw(st.sampled_from(['fixed'] * 8 + ['instr'] * 4 + ['template', 'raw', 'im2', 'loop', 'loop', 'loop', 'delay', 'delay',
-                                 'ldir', 'lda', 'ldr', 'inir', 'sp', 'jr']))
+def _safe_piece(draw, vpage):
+    kind = draw(st.sampled_from(['fixed'] * 9 + ['loop'] * 5 + ['im2', 'delay', 'delay', 'ldir', 'lda', 'ldr', 'inir', 'jr', 'ldhl']))
     if kind == 'fixed':
-        return draw(st.sampled_from(FIXED_PIECES))
-    if kind == 'instr':
-        return draw(gen_prog.instruction(base))
-    if kind == 'template':
-        return draw(st.sampled_from(gen_prog._templates()))
-    if kind == 'raw':
-        return draw(st.lists(st.integers(0, 255), min_size=1, max_size=4))
+        return draw(st.sampled_from(SAFE_PIECES))
     if kind == 'im2':
         return [0x3E, vpage, 0xED, 0x47, 0xED, 0x5E] + draw(st.sampled_from([[], [0xFB], [0xFB, 0x76]]))
     if kind == 'loop':
-        body = draw(st.sampled_from([
-            [0xED, 0x57, 0xED, 0x5F], [0xED, 0x57, 0xF5, 0xF1], [0xFB, 0x00, 0xFB], [0xFB], [0xFB, 0x76], [0xFB, 0x76, 0xF3],
-            [0xDD, 0xFD, 0xDD, 0x23], [0xDD, 0xCB, 0x00, 0x06], [0xFD, 0xCB, 0x01, 0x4E, 0xDD], [0xDB, 0xFE, 0xED, 0x78],
-            [0xDB, 0xFE], [0xED, 0x78, 0xFB], [0xED, 0xA2, 0x04], [0xCB, 0x46, 0xF5, 0xF1], [0xED, 0x4F, 0xDD, 0x23],
-            [0x3C, 0xD3, 0xFE], [0xED, 0x5F, 0x77, 0x23], [0xED, 0x44, 0xFB, 0xED, 0x57], [0xFD], [0x00],
-        ]))
+        body = draw(st.sampled_from(LOOP_BODIES))
         n = draw(_count if body.count(0x76) == 0 else _small)
         return [0x06, n] + body + [0x10, (-(len(body) + 2)) & 0xFF]
     if kind == 'delay':
         n = draw(st.one_of(st.integers(1, 60), st.integers(1, 3000)))
         return [0x01] + _w(n) + [0x0B, 0x78, 0xB1, 0x20, 0xFB]
     if kind == 'ldir':
-        n = draw(st.one_of(st.integers(1, 40), st.integers(1, 4000)))
-        src = draw(st.sampled_from([0x4000, 0x5800, 0x9000, 0xC000, 0x0000]))
-        dst = draw(st.sampled_from([0x4001, 0x5801, 0xA000, 0xC100, 0xE000]))
-        return [0x21] + _w(src) + [0x11] + _w(dst) + [0x01] + _w(n) + [0xED, draw(st.sampled_from([0xB0, 0xB0, 0xB8]))]
+        src, dst, mx = draw(st.sampled_from(LDIR_SHAPES))
+        n = draw(st.one_of(st.integers(1, 40), st.integers(1, mx)))
+        return [0x21] + _w(src) + [0x11] + _w(dst) + [0x01] + _w(n) + [0xED, 0xB8 if dst < src else 0xB0]
     if kind == 'lda':
         return [0x3E, draw(_byte)]
     if kind == 'ldr':
         return [0x3E, draw(_byte), 0xED, 0x4F]
     if kind == 'inir':
         return [0x21] + _w(draw(st.sampled_from([0x5B00, 0x9000, 0xE000]))) + [0x06, draw(st.integers(0, 40)), 0xED, draw(st.sampled_from([0xB2, 0xBA]))]
-    if kind == 'sp':
-        return [0x31] + _w(draw(st.sampled_from([0xFF00, 0x7F00, 0x5C00, 0x0000, 0x4002, 0xBFFE])))
-    # jr: short relative jump (forward over a few bytes or backward)
-    return [draw(st.sampled_from([0x18, 0x20, 0x28, 0x30, 0x38])), draw(st.one_of(st.integers(0, 6), st.integers(0xF0, 0xFF)))]
+    if kind == 'ldhl':
+        return [draw(st.sampled_from([0x21, 0x11]))] + _w(draw(st.sampled_from([0x9000, 0xA800, 0x7000, 0x4800, 0x5AFF])))
+    # jr: conditional/unconditional short forward jump (may land inside the next piece)
+    return [draw(st.sampled_from([0x18, 0x20, 0x28, 0x30, 0x38])), draw(st.integers(0, 4))]
 
 
-ISR_PIECES = [[0xF5], [0xF1], [0xDB, 0xFE], [0xED, 0x78], [0x3C], [0xD3, 0xFE], [0xED, 0x57], [0xED, 0x5F], [0xFB], [0x08], [0xD9],
-              [0x34], [0xE5], [0xE1], [0xDD], [0xCB, 0x46], [0x01, 0xFD, 0x7F, 0xED, 0x79], [0xED, 0xA2], [0x76], [0xC5, 0xC1],
-              [0xED, 0x56], [0xED, 0x5E], [0x3E, 0x3B, 0xED, 0x47]]
-ISR_ENDS = [[0xFB, 0xC9], [0xFB, 0xC9], [0xFB, 0xC9], [0xFB, 0xED, 0x4D], [0xED, 0x45], [0xC9], [0xFB, 0xF1, 0xC9], [0xFB, 0x00, 0xC9],
-            [0xC3, 0x38, 0x00], [0xFF]]
+@st.composite
+def _wild_piece(draw, base):
+    kind = draw(st.sampled_from(['instr', 'instr', 'instr', 'template', 'raw', 'fixed', 'fixed']))
+    if kind == 'instr':
+        return draw(gen_prog.instruction(base))
+    if kind == 'template':
+        return draw(st.sampled_from(gen_prog._templates()))
+    if kind == 'raw':
+        return draw(st.lists(st.integers(0, 255), min_size=1, max_size=4))
+    return draw(st.sampled_from(WILD_FIXED))
+
+
+ISR_PIECES = [[0xDB, 0xFE], [0xED, 0x78], [0x3C], [0xD3, 0xFE], [0xED, 0x57], [0xED, 0x5F], [0x08], [0xD9], [0x34], [0xDD], [0xCB, 0x46],
+              [0xED, 0xA2], [0xC5, 0xC1], [0xED, 0x56], [0xED, 0x5E], [0xFB], [0xFB, 0x76], [0xDB, 0xFE, 0x2F, 0xE6, 0x1F],
+              [0x06, 0x08, 0xED, 0x78, 0x10, 0xFC], [0x01, 0xFD, 0x7F, 0x3E, 0x10, 0xED, 0x79]]
+ISR_ENDS = [[0xFB, 0xC9], [0xFB, 0xC9], [0xFB, 0xC9], [0xFB, 0xED, 0x4D], [0xED, 0x45], [0xC9], [0xFB, 0x00, 0xC9],
+            [0xC3, 0x38, 0x00], [0xFF, 0xC9], [0xF3, 0xFB, 0xC9]]
+SAFE_BASES = {False: [0x8000, 0x8000, 0x6000, 0xBFF0, 0xC000, 0xF000], True: [0x8000, 0x8000, 0x6000, 0x7F80]}
+WILD_BASES = [0x8000, 0xC000, 0x5B00, 0xBFF0, 0xFF80, 0x4000]
 
 
 @st.composite
 def cases(draw, tier):
     model = draw(st.sampled_from(['48K', '48K', '48K', '128K', '128K', '+2']))
     is128 = model != '48K'
-    base = draw(st.sampled_from([0x8000, 0x8000, 0x8000, 0x6000, 0xC000, 0x5B00, 0xBFF0, 0xFF80]))
-    vpage = draw(st.sampled_from([0xFE, 0xFE, 0xBE, 0x7E, 0x5B, 0x3B, 0x00]))
-    vbyte = draw(st.sampled_from([0x81, 0x81, 0xFD, 0x65, 0xC3, 0x5C]))
-    parts = draw(st.lists(_piece(base, vpage), min_size=1, max_size=24 if tier == 'quick' else 40))
-    code = draw(st.sampled_from([[], [], [0x31, 0x00, 0xFF], [0xFB], [0x3E, vpage, 0xED, 0x47, 0xED, 0x5E, 0xFB]]))
-    code = list(code)
+    wild_max = draw(st.sampled_from([0, 0, 0, 1, 2, 99]))
+    wild = wild_max == 99
+    if wild:
+        base = draw(st.sampled_from(WILD_BASES))
+        vpage = draw(st.sampled_from([0xFE, 0xBE, 0x7E, 0x5B, 0x3B, 0x00]))
+        vbyte = draw(st.sampled_from([0x81, 0xFD, 0x65, 0xC3, 0x5C]))
+    else:
+        base = draw(st.sampled_from(SAFE_BASES[is128]))
+        vpage = draw(st.sampled_from([0x7C, 0xBC] if is128 else [0x7C, 0xBC, 0xFD]))
+        vbyte = draw(st.sampled_from([v for v in (0x65, 0x9A, 0xB5) if not base - 0x100 <= v * 257 <= base + 0x500]))
+    if draw(st.sampled_from([False, False, True])):
+        # dense: a short loop made of the instructions the frame-end rules care about
+        parts = draw(st.lists(st.sampled_from(DENSE_PIECES), min_size=1, max_size=5))
+    else:
+        parts = draw(st.lists(_safe_piece(vpage), min_size=1, max_size=20 if tier == 'quick' else 36))
+    for _ in range(draw(st.integers(0, min(wild_max, 12)))):
+        parts.insert(draw(st.integers(0, len(parts))), draw(_wild_piece(base)))
+    safe_sp = ((base & 0xFF00) - 0x10) & 0xFFFF
+    code = list(draw(st.sampled_from([[], [0x31] + _w(safe_sp), [0xFB], [0x3E, vpage, 0xED, 0x47, 0xED, 0x5E, 0xFB]])))
     for p in parts:
         code.extend(p)
-    tail = draw(st.sampled_from(['jp', 'jp', 'jp', 'jp', 'halt-loop', 'none']))
+    tail = draw(st.sampled_from(['jp', 'jp', 'jp', 'jp', 'halt-loop', 'halt-loop', 'none' if wild else 'jp']))
     if tail == 'jp':
         code += [0xC3] + _w(base)
     elif tail == 'halt-loop':
         code += [0xFB, 0x76, 0xC3] + _w(base)
     isr = []
-    for p in draw(st.lists(st.sampled_from(ISR_PIECES), min_size=0, max_size=6)):
+    for p in draw(st.lists(st.sampled_from(ISR_PIECES), min_size=0, max_size=5)):
         isr.extend(p)
+    if isr and draw(st.booleans()):
+        isr = [0xF5] + isr + [0xF1]
     isr += draw(st.sampled_from(ISR_ENDS))
     regs = draw(gen_prog.registers())
-    regs['SP'] = draw(st.one_of(st.sampled_from([0xFF00, 0xFF00, 0x7FFE, 0x5C00, 0xFFFE, 0x0000, 0x4001]), gen_prog.word))
+    im = draw(st.sampled_from([0, 1, 1, 1, 2, 2]))
+    if wild:
+        regs['SP'] = draw(st.one_of(st.sampled_from([0xFF00, 0x7FFE, 0x5C00, 0xFFFE, 0x0000, 0x4001]), gen_prog.word))
+        o7ffd = draw(st.one_of(st.sampled_from([0, 0x10, 0x07, 0x11, 0x17, 0x30]), st.integers(0, 255))) if is128 else 0
+    else:
+        regs['SP'] = safe_sp
+        regs['HL'] = draw(st.sampled_from([0x9000, 0xA800, 0x7000, 0x4800]))
+        regs['DE'] = draw(st.sampled_from([0xA000, 0x7800, 0x5000]))
+        regs['IX'] = draw(st.sampled_from([0xB000, 0x7400, 0x5AFF]))
+        regs['IY'] = 0x5C3A
+        if im == 2:
+            regs['I'] = vpage
+        o7ffd = draw(st.sampled_from([0x10, 0x10, 0x11, 0x13, 0x17, 0x30])) if is128 else 0
     real = REAL_FRAME[model]
     max_frames = 12 if tier == 'quick' else draw(st.sampled_from([12, 12, 30, 60]))
     nframes = draw(st.integers(1, max_frames))
@@ -189,13 +244,13 @@ def cases(draw, tier):
         'fill_seed': draw(st.integers(0, 2 ** 32 - 1)),
         'fill_style': draw(st.sampled_from([0, 0, 1, 1, 2])),
         'regs': regs,
-        'im': draw(st.sampled_from([0, 1, 1, 1, 2, 2])),
+        'im': im,
         'iff': draw(st.sampled_from([0, 1, 1])),
         't0': t0,
         'border': draw(st.integers(0, 7)),
         'outfe': draw(_byte),
         'memptr': draw(gen_prog.word),
-        'o7ffd': draw(st.one_of(st.sampled_from([0, 0x10, 0x07, 0x11, 0x17, 0x30]), st.integers(0, 255))) if is128 else 0,
+        'o7ffd': o7ffd,
         'outfffd': draw(st.integers(0, 255)) if is128 else 0,
         'ay': draw(st.lists(st.integers(0, 255), min_size=16, max_size=16)) if is128 else [0] * 16,
         'frames': nframes,
@@ -599,7 +654,7 @@ def play(s, case, infile, outfile, flags, python=False, cmio=False, stop=None, w
         argv += ['--stop', str(stop)]
     argv += [s.path(infile), s.path(outfile)]
     r = cli.run('rzxplay', argv)
-    variant = ('py' if python else 'c') + ('cmio' if cmio else '')
+    variant = 'py' if python else 'c'
     if r.exc is not None:
         from skoolkit import SkoolKitError
         if isinstance(r.exc, SkoolKitError):
@@ -825,7 +880,7 @@ def oracle(case, rec=None):
                     raise Violation('dump-machine', 'dumped %s snapshot is for %r, recording for %r' % (ext, got['machine'], case['model']), shown)
                 d = state_diff(got, exp, skip_t)
                 if d:
-                    raise Violation('play-vs-recorder:%s:%s' % ('ccmio' if rec_cmio else 'c', _kind(d)),
+                    raise Violation('play-vs-recorder:%s' % _kind(d),
                                     'rzxplay%s --flags %d %s -> .%s: final state differs from the recorder\'s after %d frames (frame ends: %s): %s '
                                     '(played, recorded); fetch counters %r' % (' --cmio' if rec_cmio else '', flags, name, ext, F,
                                                                               recording.ends[-6:], d[:6], [f[0] for f in recording.frames[:12]]), shown)
